@@ -786,6 +786,12 @@ def memo_sites(repo: Repo, prefixes: Iterable[str]):
                     v_ = n.targets[0].id
                     cont_t = norm(n.value.func.value)
                     k_t = norm(n.value.args[0])
+                    r_ = cont_t.split('.')[0].split('[')[0]
+                    if (r_ in params and r_ not in MEMO_CARRIERS) or any(
+                            isinstance(x_, ast.Name) and x_.id == r_
+                            and isinstance(x_.ctx, ast.Store)
+                            for x_ in ast.walk(fn)):
+                        continue     # the caller's table / a local one
                     for i_ in ast.walk(fn):
                         if isinstance(i_, ast.If) and norm(i_.test) in (
                                 f'{v_} is None', f'not {v_}') and any(
